@@ -100,7 +100,9 @@ func (p *procWorker) start() {
 	}
 	p.gen++
 	cmd := exec.Command(exe)
-	cmd.Env = append(os.Environ(), fmt.Sprintf("%s=%s-%d", workerEnv, p.seed, p.gen))
+	// a worker runs one history at a time; a few OS threads are enough (12 workers with 16
+	// each only fight over the cores and make the timing of the 200 ms stalls noisy)
+	cmd.Env = append(os.Environ(), fmt.Sprintf("%s=%s-%d", workerEnv, p.seed, p.gen), "GOMAXPROCS=3")
 	in, err := cmd.StdinPipe()
 	if err != nil {
 		panic(err)
